@@ -53,6 +53,9 @@ M = {
     "symbolic-dims-stripped-when-many-inputs": (["C03"], [("src/spox/_public.py",
         "    return model_proto\n",
         "    if len(model_proto.graph.input) > 3:\n        for _i in model_proto.graph.input:\n            for _d in _i.type.tensor_type.shape.dim:\n                _d.ClearField('dim_param')\n    return model_proto\n")]),
+    "zero-dim-treated-as-unknown": (["C03"], [("src/spox/_shape.py",
+        "        if isinstance(value, int):\n            return Constant(value)\n        elif isinstance(value, str):\n            return Unknown(value)\n        elif value is None:",
+        "        if isinstance(value, int) and value:\n            return Constant(value)\n        elif isinstance(value, str):\n            return Unknown(value)\n        elif not value:")]),
     # ---- C12
     # ---- refactorings of internals the harness looks at, combined with a real fault
     "refactor-manager-renamed-no-finally": (["C12"], [
@@ -69,10 +72,27 @@ M = {
     "build-prunes-callers-dict": (["C12"], [("src/spox/_public.py",
         "        del model_proto.graph.input[:]\n",
         "        for _n in [n for n in inputs if n not in used]:\n            del inputs[_n]\n        del model_proto.graph.input[:]\n")]),
+    "adapt-inline-keeps-converted-model": (["C12"], [("src/spox/_adapt.py",
+        "        finally:\n            node.model = base_model\n", "        finally:\n            pass\n")]),
+    "opset-import-order-from-set": (["C12"], [("src/spox/_schemas.py",
+        "    grouping = itertools.groupby(sorted(opset_req), key=lambda x: x[0])\n    return {domain: max(v for _, v in group) for domain, group in grouping}",
+        "    out: Dict[str, int] = {}\n    for domain, v in opset_req:\n        out[domain] = max(v, out.get(domain, 0))\n    return out")]),
+    "function-order-by-address": (["C12"], [("src/spox/_graph.py",
+        "            functions=list(function_protos.values()),",
+        "            functions=sorted(function_protos.values(), key=id),")]),
+    "sequence-input-elem-dims-dropped": (["C03"], [("src/spox/_public.py",
+        "    return model_proto\n",
+        "    for _i in model_proto.graph.input:\n        if _i.type.HasField('sequence_type'):\n            _i.type.sequence_type.elem_type.tensor_type.ClearField('shape')\n    return model_proto\n")]),
+    "fix-c-reverted-with-arguments-shares-cache": (["C12"], [("src/spox/_graph.py",
+        "        return replace(self, _arguments=args, _build_result=_build.Cached())",
+        "        return replace(self, _arguments=args)")]),
+    "with-opset-resets-nothing-but-builder-reads-name": (["C12"], [("src/spox/_build.py",
+        "        if not graph.requested_results:",
+        "        if not graph.requested_results or graph._name == '?':")]),
     "renames-restore-to-none": (["C12"], [("src/spox/_public.py",
         "        for arg, name in pre.items():\n            arg._rename(name)",
         "        for arg, name in pre.items():\n            arg._rename(None)")]),
-    "B8-renames-no-finally": (["C12"], [("src/spox/_public.py",
+    "B8-renames-no-finally": (["C12", "C03"], [("src/spox/_public.py",
         """    try:
         for name, arg in kwargs.items():
             # Only the first occurrence holds the original name (a Var may be passed under several keys)
@@ -91,7 +111,7 @@ M = {
     for arg, name in pre.items():
         arg._rename(name)
 """)]),
-    "renames-restore-in-else-only": (["C12"], [("src/spox/_public.py",
+    "renames-restore-in-else-only": (["C12", "C03"], [("src/spox/_public.py",
         """        yield
     finally:
         for arg, name in pre.items():
